@@ -908,6 +908,124 @@ func c13Copy(c *Ctx, ix *PkgIndex, xc xformCopy) []string {
 					}
 				})
 			}
+			// the item goes into the group of THIS iteration's key: the variable it is appended through is defined inside the iteration
+			// (looked up or created under the key just computed), or — if it lives across iterations, a "same group as the previous
+			// item" cache — it is re-assigned on every path on which the remembered key is
+			{
+				g := ix.FG(fn)
+				itemField := map[string]string{"trace": "Spans", "log": "LogRecords"}[xc.signal]
+				var loops []*ast.RangeStmt
+				inspectNoLit(fn.Body(), func(n ast.Node) bool {
+					if r, ok := n.(*ast.RangeStmt); ok {
+						loops = append(loops, r)
+					}
+					return true
+				})
+				nApp := 0
+				stale := ""
+				for _, x := range g.Nodes {
+					as, ok := x.N.(*ast.AssignStmt)
+					if !ok || len(as.Lhs) != 1 || len(as.Rhs) != 1 {
+						continue
+					}
+					se, isSel := unparen(as.Lhs[0]).(*ast.SelectorExpr)
+					call, isC := unparen(as.Rhs[0]).(*ast.CallExpr)
+					if !isSel || !isC || se.Sel.Name != itemField || builtinName(info, call) != "append" {
+						continue
+					}
+					tv := objOf(info, se.X)
+					if _, isID := unparen(se.X).(*ast.Ident); !isID || tv == nil {
+						continue
+					}
+					var loop *ast.RangeStmt
+					for _, r := range loops {
+						if containsNoLitOrIn(r.Body, as) && (loop == nil || containsNoLitOrIn(loop.Body, r)) {
+							loop = r
+						}
+					}
+					if loop == nil {
+						continue
+					}
+					nApp++
+					if definedIn(info, loop.Body, tv) {
+						continue
+					}
+					// a cache: find the remembered key (compared with a value of this iteration on the way to the append)
+					var kept types.Object
+					_, _ = g.DominatedByEdges(x, func(ed *GEdge) bool {
+						return edgeImplies(ed, func(cnd ast.Expr, pol int) bool {
+							l, op, r, okc := cmpNorm(cnd, pol)
+							if !okc || op != token.EQL {
+								return false
+							}
+							for _, pair := range [][2]ast.Expr{{l, r}, {r, l}} {
+								a, b := objOf(info, pair[0]), objOf(info, pair[1])
+								if a != nil && b != nil && !definedIn(info, loop.Body, a) && definedIn(info, fn.Body(), a) && definedIn(info, loop.Body, b) {
+									kept = a
+									return true
+								}
+							}
+							return false
+						})
+					})
+					if kept == nil {
+						stale = "the group variable " + tv.Name() + " lives across iterations and is not tied to a remembered key"
+						continue
+					}
+					assigns := func(o types.Object) map[*GNode]bool {
+						return toSet(g.Match(func(n ast.Node) bool {
+							a2, ok2 := n.(*ast.AssignStmt)
+							if !ok2 || !containsNoLitOrIn(loop.Body, a2) {
+								return false
+							}
+							for _, l := range a2.Lhs {
+								if id, isID := unparen(l).(*ast.Ident); isID && info.ObjectOf(id) == o {
+									return true
+								}
+							}
+							return false
+						}))
+					}
+					keyAs, grpAs := assigns(kept), assigns(tv)
+					isLoopHead := func(y *GNode) bool {
+						return y.N == nil && y.Blk != nil && y.Blk.Kind.String() == "RangeLoop"
+					}
+					for ka := range keyAs {
+						// from the point the key is remembered to the end of the iteration, the group is remembered too
+						seen, par := g.Reach([]*GNode{ka}, func(y *GNode) bool { return grpAs[y] }, nil)
+						back := false
+						if grpAs[ka] {
+							continue
+						}
+						// … unless it was remembered just before, with no way in between to skip this assignment
+						if d, _ := g.DominatedByNodes(ka, grpAs); d {
+							okPrev := true
+							for ga := range grpAs {
+								s2, _ := g.Reach([]*GNode{ga}, func(y *GNode) bool { return y == ka }, nil)
+								for y := range s2 {
+									if isLoopHead(y) || y == g.Exit {
+										okPrev = false
+									}
+								}
+							}
+							if okPrev {
+								continue
+							}
+						}
+						for y := range seen {
+							if isLoopHead(y) || y == g.Exit {
+								back = true
+								stale = "the remembered key " + kept.Name() + " is updated without the remembered group " + tv.Name() + " (" + g.pathLines(par, y) + "): the next item with that key is appended to another key's group"
+							}
+						}
+						_ = back
+					}
+				}
+				if nApp > 0 {
+					c.Check(stale == "", "R4", sp+"|"+fname+"|items are appended to the group of their own (resource, scope)", at(ix.M, fn.Pos()), itoa(nApp)+" item append(s), each through this iteration's group",
+						"an item can be encoded under another item's resource or scope: "+stale)
+				}
+			}
 			c.Check(good, "R4", sp+"|"+fname+"|groups keyed by (resource.Equivalent(), instrumentation scope)", at(ix.M, fn.Pos()), "one ScopeX per resource × scope", "items of different resources or scopes are merged into one group (or split)")
 		}
 	}
